@@ -120,7 +120,7 @@ def encBuf (b : List Nat) (o : Option Nat) : BufResult :=
 
 /-! ### JSON wrappers -/
 
-def bytesOfString (s : String) : List Nat := s.toUTF8.toList.map (·.toNat)
+def bytesOfString (s : String) : List Nat := s.toUTF8.data.toList.map (·.toNat)
 
 def natsToByteArray (l : List Nat) : ByteArray := ByteArray.mk (l.map (fun n => UInt8.ofNat n)).toArray
 
